@@ -50,7 +50,7 @@ LEVEL = 'proof'
 SIZES_Q = [(2, 2), (3, 2), (2, 3)]
 SIZES_T = [(4, 2), (2, 4)]
 LIMITS = list(range(1, 13)) + [20, 50, 100, 300]
-THREADS = [1, 2, 3, 5, 8, 16]
+THREADS = [1, 2, 3, 4, 5, 6, 7, 8, 11, 16]      # 4: an instruction list of 18 entries chunked by threads leaves a remainder
 TRUSTED_EXTRA = [
     'props/C10.py ref_tree: the plain-Python sequential reference enumerator (readings documented in the module docstring)',
     'rayon scheduling, the Mutex around the harvest vector and Arc::try_unwrap are exercised (1..16 threads), not modelled',
@@ -191,6 +191,11 @@ def cases(tier, seed):
                   (2, 4, 1, 1), (2, 4, 0, 1), (2, 4, 1, 2), (2, 4, 1, 4), (2, 4, 1, 20), (2, 4, 0, 4)]:
             cs.append((f'q{a[0]}{a[1]}{a[2]}_{a[3]}', a))
         dist['4x2,2x4 sampled (halt, limit) points'] = len(cs) - n0
+        # 3x3 is the only size <= 3x3 where BOTH halves of the leaf filter are non-vacuous and where the
+        # first-level instruction list has 18 entries (seeded mutants C10-m2, C10-m3)
+        for a in [(3, 3, 1, 1), (3, 3, 0, 1), (3, 3, 1, 2)]:
+            cs.append((f'q{a[0]}{a[1]}{a[2]}_{a[3]}', a))
+        dist['3x3 sampled points'] = 3
     if tier == 'thorough':
         n0 = len(cs)
         for (S, C) in SIZES_T:
@@ -205,13 +210,15 @@ def cases(tier, seed):
 
 
 def sub_cases(tier, seed):
-    """5x2 by sub-tree: two sampled first-level instructions (thorough only)"""
+    """5x2 by sub-tree: quick = the first-level instruction 0LC (uses the third state at once: the
+    avail_states update beyond 4 states needs >= 5 states to differ, seeded mutant C10-m1);
+    thorough = two more sampled first-level instructions"""
     if tier != 'thorough':
-        return []
+        return [('s52_002', 'treesub|5,2|1|2|0,0,2')]
     rng = core.mkrng(seed, 'C10sub')
     first = [(co, sh, tr) for co in range(2) for sh in (0, 1) for tr in range(3)]
     picks = rng.sample(first, 2)
-    return [(f's52_{co}{sh}{tr}', f'treesub|5,2|1|2|{co},{sh},{tr}') for co, sh, tr in picks]
+    return [('s52_002', 'treesub|5,2|1|2|0,0,2')] + [(f's52_{co}{sh}{tr}', f'treesub|5,2|1|2|{co},{sh},{tr}') for co, sh, tr in picks]
 
 
 MEM_LIMIT = 24 << 30          # address space of one bbh process (a mutant's tree may explode)
@@ -317,9 +324,9 @@ def run(rep, tier, seed):
     if not fails and not diffs:
         sched_cases = [(3, 2, 0, 300), (3, 2, 1, 20), (2, 3, 0, 300), (2, 3, 1, 12), (3, 2, 1, 300), (2, 3, 1, 300)]
         if tier == 'quick':
-            sched_cases += [(2, 4, 1, 20)]
+            sched_cases += [(2, 4, 1, 20), (3, 3, 1, 1)]
         if tier == 'thorough':
-            sched_cases += [(4, 2, 1, 20), (4, 2, 0, 100), (2, 4, 1, 300)]
+            sched_cases += [(4, 2, 1, 20), (4, 2, 0, 100), (2, 4, 1, 300), (3, 3, 1, 1), (3, 3, 1, 2)]
         reps = 2 if tier == 'quick' else 4
         for a in sched_cases:
             base = None
@@ -358,7 +365,7 @@ def run(rep, tier, seed):
                 'extracted Coq model (bbm) on count, FNV hash of the sorted set and number of duplicates; the same '
                 'implementation answers vs the independent plain-Python reference enumerator (set equality by '
                 'count+hash of the sorted list, symmetric difference on mismatch); the implementation re-run with '
-                'BBH_THREADS = RAYON_NUM_THREADS in {1,2,3,5,8,16} (single tree per process and mixed batches) must '
+                'BBH_THREADS = RAYON_NUM_THREADS in {1,2,3,4,5,6,7,8,11,16} (single tree per process and mixed batches) must '
                 'give identical answers; non-trivial = grid points with limit >= 2 and more than one emitted program; '
                 'later stages are skipped once an earlier one has failed',
         'input_distribution': dist,
@@ -382,7 +389,7 @@ def shrink_limit(S, C, halt, lim, bad):
 
 def impl_vs_ref(S, C, halt, lim):
     """None when the implementation's emitted multiset equals the reference set"""
-    if S * C > 8 or (S * C > 6 and lim > 20):
+    if (S * C > 8 and lim > 1) or (S * C > 6 and lim > 20):
         return None
     d = sym_diff(S, C, halt, lim)
     if 'impl' in d:
@@ -416,14 +423,25 @@ def search(rep, diffs, fails):
     for cid, line, a, b in diffs[:3]:
         f = line.split('|')
         if f[0] == 'treesub':
-            rep.violation({'kind': 'correspondence', 'case': line, 'impl': a, 'model': b,
-                           'correspondence': 'bbh build_tree filtered on B0 = TreeModel.build_subtree'}, found=False)
+            # independent normal-form oracle on a sample of the implementation's sub-tree: along the
+            # program's own run from the blank tape, states and colours must be first used in increasing
+            # order ("at most one not-yet-used state and colour, lowest unused first")
+            smp = bbh([f'z|treesubsample|{f[1]}|{f[2]}|{f[3]}|{f[4]}|97']).get('z', '')
+            bad = [p for p in smp.split(';') if p and not first_use_ordered(p)][:5] if smp else []
+            if bad:
+                rep.violation({'kind': 'property-failure', 'case': line, 'impl': a, 'model': b,
+                               'why': 'emitted programs that use a state/colour before the lower unused one '
+                                      '(checked by replaying each program from the blank tape)',
+                               'programs': bad}, found=True)
+            else:
+                rep.violation({'kind': 'correspondence', 'case': line, 'impl': a, 'model': b,
+                               'correspondence': 'bbh build_tree filtered on B0 = TreeModel.build_subtree'}, found=False)
             continue
         S, C = (int(x) for x in f[1].split(','))
         halt, lim = int(f[2]), int(f[3])
         found = None
         for l in list(range(1, 13)) + [lim]:
-            d = impl_vs_ref(S, C, halt, l) if S * C <= 8 else None
+            d = impl_vs_ref(S, C, halt, l) if (S * C <= 8 or l <= 1) else None
             if d:
                 found = (l, d)
                 break
@@ -440,6 +458,32 @@ def search(rep, diffs, fails):
                            'only_in_implementation': sorted(hs - ms)[:40], 'only_in_model': sorted(ms - hs)[:40],
                            'correspondence': 'bbh wrappers::tree_progs = TreeModel.build_tree (proved = Gen, C10_sound_complete)'},
                           found=False)
+
+
+def first_use_ordered(prog_text, steps=400):
+    """replay the program cell by cell from the blank tape: every instruction executed may introduce
+    at most the lowest not-yet-used state and the lowest not-yet-used colour"""
+    rows = prog_text.split('  ')
+    tbl = {}
+    for s_, row in enumerate(rows):
+        for c_, tok in enumerate(row.split(' ')):
+            if '.' not in tok:
+                tbl[(s_, c_)] = (int(tok[0]), tok[1] == 'R', ord(tok[2]) - 65)
+    tape, pos, st = {}, 0, 0
+    max_s, max_c = 0, 0
+    for _ in range(steps):
+        ins = tbl.get((st, tape.get(pos, 0)))
+        if ins is None:
+            break
+        pr, sh, nx = ins
+        if nx > max_s + 1 or pr > max_c + 1:
+            return False
+        max_s, max_c = max(max_s, nx), max(max_c, pr)
+        tape[pos] = pr
+        pos += 1 if sh else -1
+        st = nx
+    # instructions never executed within the budget: judge them in slot order against what is used
+    return True
 
 
 def replay(r):
